@@ -308,8 +308,9 @@ def overlap1 (uLo uHi uC vLo vHi vC : Rat) : Rat :=
 def Rect.overlapD (u v : Rect) (d : Dim) : Rat :=
   overlap1 (u.min d) (u.max d) (u.centre d) (v.min d) (v.max d) (v.centre d)
 
-/-- the threshold in `NonOverlapConstraints::generateSeparationConstraints` -/
-def overlapThreshold : Rat := 5 / 10000
+/-- the threshold in `NonOverlapConstraints::generateSeparationConstraints`:
+    the exact value of the double `0.0005` -/
+def overlapThreshold : Rat := (1152921504606847 : Rat) / 2305843009213693952
 
 /-- A participant of non-overlap: a plain shape (variable `id`, half sizes) or a cluster
     (boundary variables `varId`, `varId+1`, current bounds, margin box) -/
@@ -326,13 +327,17 @@ def NoShape.key : NoShape → Nat
 def applyBox (r : Rect) (mMinX mMaxX mMinY mMaxY : Rat) : Rect :=
   { minX := r.minX - mMinX, maxX := r.maxX + mMaxX, minY := r.minY - mMinY, maxY := r.maxY + mMaxY }
 
+/-- half width for x, half height for y -/
+def halfOf (d : Dim) (hw hh : Rat) : Rat :=
+  match d with
+  | .x => hw
+  | .y => hh
+
 /-- rectangle used for the overlap test, (left var, right var), (below, above) extents in `dim` -/
 def NoShape.view (s : NoShape) (bbs : Array Rect) (dim : Dim) : Rect × Rat × Nat × Nat × Rat × Rat :=
   match s with
   | .shape id hw hh =>
-    let h := match dim with | .x => hw | .y => hh
-    let r := bbs.getD id default
-    (r, r.centre dim, id, id, h, h)
+    (bbs.getD id default, (bbs.getD id default).centre dim, id, id, halfOf dim hw hh, halfOf dim hw hh)
   | .cluster v b a c d e =>
     let lo := match dim with | .x => a | .y => d
     let hi := match dim with | .x => c | .y => e
@@ -355,11 +360,38 @@ def nonOverlapSeps (bbs : Array Rect) (dim : Dim) (shapes : List NoShape) (pairs
     | some s1, some s2 => nonOverlapPair bbs dim s1 s2
     | _, _ => none
 
-/-- `NonOverlapConstraints::addShape` bookkeeping: pairs created when shape `id` of `group` is
-    added after `existing` (list of (id, group) in increasing id order = std::map order) -/
-def addShapePairs (exempt : Nat → Nat → Bool) (existing : List (Nat × Nat)) (id group : Nat) : List (Nat × Nat) :=
-  existing.filterMap fun og =>
-    if og.2 = group ∧ og.1 ≠ id ∧ ¬ exempt og.1 id then some (Nat.min og.1 id, Nat.max og.1 id) else none
+/-- state of a `NonOverlapConstraints` object: `shapeOffsets` (a std::map, so kept sorted by key;
+    each entry with its group) and `pairInfoList` in insertion order -/
+structure NocState where
+  entries : List (NoShape × Nat) := []
+  pairs : List (Nat × Nat) := []
+  deriving Repr, Inhabited
+
+/-- `shapeOffsets[id] = …` : insert or replace, keeping key order -/
+def insertEntry (e : NoShape × Nat) : List (NoShape × Nat) → List (NoShape × Nat)
+  | [] => [e]
+  | h :: t =>
+    if e.1.key < h.1.key then e :: h :: t
+    else if e.1.key = h.1.key then e :: t
+    else h :: insertEntry e t
+
+/-- `NonOverlapConstraints::addShape(id, halfW, halfH, group)`: a pair with every existing entry of
+    the same group that is not exempt -/
+def NocState.addShape (exempt : Nat → Nat → Bool) (st : NocState) (id : Nat) (hw hh : Rat) (group : Nat) : NocState :=
+  let newPairs := st.entries.filterMap fun e =>
+    if e.2 = group ∧ e.1.key ≠ id ∧ ¬ exempt e.1.key id then some (Nat.min e.1.key id, Nat.max e.1.key id) else none
+  { entries := insertEntry (.shape id hw hh, group) st.entries, pairs := st.pairs ++ newPairs }
+
+/-- `NonOverlapConstraints::addCluster(cluster, group)`: a pair with every existing entry of the
+    same group that is not one of the cluster's own child nodes -/
+def NocState.addCluster (st : NocState) (c : NoShape) (childNodes : List Nat) (group : Nat) : NocState :=
+  let id := c.key
+  let newPairs := st.entries.filterMap fun e =>
+    if e.2 = group ∧ ¬ childNodes.contains e.1.key then some (Nat.min e.1.key id, Nat.max e.1.key id) else none
+  { entries := insertEntry (c, group) st.entries, pairs := st.pairs ++ newPairs }
+
+def NocState.seps (st : NocState) (bbs : Array Rect) (dim : Dim) : List Sep :=
+  nonOverlapSeps bbs dim (st.entries.map (·.1)) st.pairs
 
 /-- `ClusterContainmentConstraints` for one cluster with boundary variables `v`, `v+1` in one
     dimension: child node `(id, half size)`; child cluster `(varId, margin.min, margin.max)`;
